@@ -468,19 +468,62 @@ func runHistory(c *verdict.Ctx, idx int, base string) {
 // cycles runs the operate / crash / probe / restart loop on a started WAL.
 func (hs *hist) cycles(r *rand.Rand, cfg histCfg, m *model, lv *live) {
 	c, idx := hs.c, hs.idx
+	// one history in six stays at the initial height: no end-height marker is
+	// ever written by the harness, so a restart replays from marker 0
+	initialOnly := r.Intn(6) == 0
+	if initialOnly {
+		c.Count("histories_staying_at_the_initial_height", 1)
+	}
+	gen := func() opSpec {
+		op := genOp(r)
+		if initialOnly {
+			switch op.Kind {
+			case opEndSync:
+				op.Kind = opWriteSync
+			case opEndWrite:
+				op.Kind = opWrite
+			}
+		}
+		return op
+	}
 	for cyc := 0; cyc < cfg.Cycles; cyc++ {
 		nops := 3 + r.Intn(28)
 		for i := 0; i < nops; i++ {
-			if err := lv.do(genOp(r)); err != nil {
+			if err := lv.do(gen()); err != nil {
 				lv.stop()
 				hs.fail(err)
 				return
 			}
 		}
+		// in a third of the cycles the last sync before the crash is a rotation (the cut
+		// at the synced size then leaves an empty head next to rotated files): keep
+		// writing synced records until the head has just been rotated away
+		afterRotation := false
+		if m.HeadLimit > 0 && r.Intn(3) == 0 {
+			for i := 0; i < 300 && !(len(m.Files) > 1 && m.head().Logical == 0); i++ {
+				op := gen()
+				if op.Kind == opWrite || op.Kind == opEndWrite {
+					op.Kind = opWriteSync
+				}
+				if op.StepLen > 2000 {
+					op.StepLen = r.Intn(400)
+				}
+				if err := lv.do(op); err != nil {
+					lv.stop()
+					hs.fail(err)
+					return
+				}
+				nops++
+			}
+			afterRotation = len(m.Files) > 1 && m.head().Logical == 0
+			if afterRotation {
+				c.Count("crashes_right_after_a_rotation", 1)
+			}
+		}
 		if r.Intn(10) < 7 { // leave unsynced records in the buffer so that the crash has a tail
 			extra := 1 + r.Intn(3)
 			for i := 0; i < extra; i++ {
-				op := genOp(r)
+				op := gen()
 				if op.Kind != opEndWrite {
 					op.Kind = opWrite
 				}
